@@ -272,6 +272,22 @@ def gen_cases(c):
                     '<loop set="obj[%s]" value="lv">{var:lv}</loop>', '<if case="{var:obj[%s]} == 1">y<else>n</if>', '{svar:phrase, {var:obj[%s]}, {math:{var:obj[%s]}}}',
                     '{math:{var:obj[%s]} + {var:obj[%s]}}']:
             add(tpl.replace("%s", k), "quotes")
+    # (g) unresolved tags whose echoed source ends in an entity look-alike, as the LAST thing of the buffer (the escaper looks ahead)
+    for nm in ["R&D1", "a&", "a&b", "a&bc", "a&bcd", "&lt", "&am", "&amp", "&quo", "&apo", "&apos", "x&lt;", "<&>", "a'b\"&", "&", "&&&&", "a&l", "a&g", "a&q"]:
+        for tpl in ("{var:%s}", "Dept: {var:%s}", "{var:%s[0]}", '<loop set="list" value="v">{var:v[%s]}</loop>', "{svar:phrase, {var:%s}}", '{if case="1" true="{var:%s}"}'):
+            cases.append((tpl.replace("%s", nm), '{"name":"Qentem","list":[1],"phrase":"{0}"}', "echo"))
+    # (f) expressions that end (or begin) in an operator character, with EVERY kind of unit as the attribute's quote: the scanner takes
+    #     whatever unit follows `case=` as the quote, so the unit behind the expression can be an operator character itself
+    #     (`<if case==1>=>x</if>` made `>` + quote a `>=` without right operand: 47b169e)
+    quotes = ['"', "'", "=", "|", "&", ">", "<", "!", "+", "-", "*", "/", "%", "^", "(", ")", "[", "]", "{", "}", " ", "0", "a"]
+    tails = ["1>", "1<", "1!", "1=", "1|", "1&", "1+", "1-", "1*", "1/", "1%", "1^", "(1", "1)", "1>=", "1==", "1&&", "1||", "{var:a}>", "{var:a}=", ">", "=", "|", "", "1 >", "a[", "1 ==", "1>1", "2^"]
+    for q in quotes:
+        for e in tails:
+            for tpl in ("<if case=%q%e%q>x</if>", "<if case=%q1%q>a<elseif case=%q%e%q />b</if>", "{if case=%q%e%q true=%qy%q}", "<if case=%q%e%q>"):
+                cases.append((tpl.replace("%q", q).replace("%e", e), '{"a":1}', "optail"))
+    for e in tails:
+        cases.append(("{math:%s}" % e, '{"a":1}', "optail"))
+        cases.append(("{math:%s" % e, '{"a":1}', "optail"))
     # (e) names, attribute values and tags around the limits of the 8 / 16-bit fields that hold their lengths and offsets
     for n in (253, 254, 255, 256, 257, 511, 512, 513, 65534, 65535, 65536, 65537):
         name = ("k" * n)
